@@ -735,6 +735,12 @@ func (e *Env) evalCall(x *Expr) cval {
 			return cval{"true", B}
 		}
 		if e.lenient {
+			if _, ok := vc.prov[a.t]; !ok {
+				// a load written in the contract itself (e.g. s.provider): same nil policy as for loads in code
+				if p := vc.provOfSelect(a.t, a.ct.Sort); p != "" {
+					vc.prov[a.t] = p
+				}
+			}
 			if p, ok := vc.prov[a.t]; ok {
 				// untouched entry-state value: covered by the configuration well-formedness assumption
 				switch a.ct.Sort {
@@ -899,6 +905,16 @@ func (e *Env) evalCall(x *Expr) cval {
 			}
 			return a
 		}
+	case "formValue":
+		// formValue(m, key): url.Values(m).Get(key) in the current state
+		mv := argv(0)
+		if mv.ct.T != nil {
+			if mt, ok := types.Unalias(mv.ct.T).Underlying().(*types.Map); ok {
+				return cval{vc.valuesGet(e.st, mv.t, mt, argv(1).t), S}
+			}
+		}
+		e.errorf("formValue: first argument must be a url.Values")
+		return cval{StrLit(""), S}
 	case "moderr":
 		// moderr(err): err is non-nil and its dynamic type is declared in this module
 		a := argv(0)
@@ -979,4 +995,28 @@ func (vc *VC) asErrTerm(t types.Type, err Term) Term {
 		}
 	}
 	return sx(name, err)
+}
+
+// provOfSelect: for a term (select |M_key@k| addr) of sort Ref/Val, the entry-trust predicate of that load.
+func (vc *VC) provOfSelect(t Term, sort string) Term {
+	if sort != "Ref" && sort != "Val" || !strings.HasPrefix(t, "(select |") || strings.Contains(t, "?") {
+		return ""
+	}
+	rest := t[len("(select |"):]
+	i := strings.Index(rest, "| ")
+	if i < 0 {
+		return ""
+	}
+	ver := rest[:i] // sanitized key @ version
+	addr := strings.TrimSuffix(rest[i+2:], ")")
+	j := strings.LastIndex(ver, "@")
+	if j < 0 {
+		return ""
+	}
+	for key, ms := range vc.memSorts {
+		if sanitize(key) == ver[:j] && ms == "(Array Ref "+sort+")" {
+			return vc.entryTrusted(key, sort, t, addr)
+		}
+	}
+	return ""
 }
